@@ -350,6 +350,12 @@ def run_case(case, ctx):
             _try(lambda: xa_ & mk)
             _try(lambda: mk | xa_)
             _try(lambda: xa_ ^ [mk, 1, -1])
+            # masks given as NumPy arrays of machine integers (int64, uint64, int8) against the array, either side
+            small3 = [rng.getrandbits(min(w, 62)), 1, rng.getrandbits(7)]
+            _try(lambda: xa_ & np.array(small3))
+            _try(lambda: np.array(small3, dtype=np.uint64) | xa_)
+            _try(lambda: xa_ ^ np.array([-1, 1, -3], dtype=np.int8))
+            _try(lambda: xa_ | np.array([[1, 2, 3], small3]))
             _try(lambda: xa_ & (mk, 1, 3))                  # a tuple of masks
             _try(lambda: (1, mk, -1) | xa_)
             if w >= 64:
